@@ -123,6 +123,19 @@ def ev(n, env, funcs=None):
             if isinstance(v, (int, float)):
                 return float(v).is_integer()
             raise Unsupported('is_integer on a non-number')
+        if isinstance(f, ast.Attribute) and not isinstance(f.value, ast.Attribute):
+            try:
+                rv = ev(f.value, env, funcs)
+            except Unsupported:
+                rv = None
+            if isinstance(rv, Obj) and fname in rv.methods:
+                rv.depth += 1
+                try:
+                    if rv.depth > 6:
+                        raise Unsupported('recursion in %s' % fname)
+                    return rv.call(fname, *[ev(a, env, funcs) for a in n.args])
+                finally:
+                    rv.depth -= 1
         if isinstance(f, ast.Attribute) and fname == 'append' and len(n.args) == 1:
             tgt = ev(f.value, env, funcs)
             if isinstance(tgt, list):
